@@ -187,6 +187,7 @@ SKELS = [
     ['def', ' a', '(', ')', ':', ' pass', '\n', '\n', '# c\n', 'def', ' b', '(', ')', ':', ' pass', '\n'],
     ['x', ' =', ' 1', '  ', '# done'],
     ['foo', ' bar', '\n', 'x', ' =', ' 1', '\n', 'y', '\n'],
+    ['if', ' x', ':', '\r', '\\\r', 'y', '\r', 'z', ' =', ' (', '1', ',', '\r', ' 2', ')', '\r'],
     ['\ufeff', 'x', ' =', ' (', '1', ',', '\n', ' 2', ')', '\n', '\n', '\n', '\n', 'y', '=', '1'],
 ]
 _EXTRA = ['', 'a', '1', "'s'", '$', '\n', '\n    ', '\n  ', 'f"', "f'", '"', "'", '"""', '\\\n', '#c\n', '?', '1.', '0x', 'é', '²',
@@ -443,3 +444,11 @@ def pipe_refactor(t: int, i: int, j: int, c1: int, c2: int, n2: int) -> bool:
     if g.refactor(RTREES[t], {}) != text:
         return _no('c19: refactor with an empty map changed the code')
     return True
+
+
+def skel(prefix):
+    """index of the label skeleton whose text starts with `prefix` (robust against reordering)"""
+    for i, s in enumerate(SKELS):
+        if ''.join(s).startswith(prefix):
+            return i
+    raise KeyError(prefix)
